@@ -247,6 +247,28 @@ func cmdCheck(args []string) int {
 			fmt.Fprintln(os.Stderr, err)
 			continue
 		}
+		// write-set candidates that the sequential replay does not expose: two goroutines under -race
+		var raceIdx []int
+		for i, r := range all {
+			if strings.HasPrefix(r.Sig, "ws:") && !outcomeMatches(r.Sig, outs[i]) {
+				raceIdx = append(raceIdx, i)
+			}
+		}
+		if len(raceIdx) > 0 {
+			rc := make([]replayCase, len(raceIdx))
+			for k, i := range raceIdx {
+				rc[k] = cases[i]
+			}
+			routs, rerr := nativeReplay(rel, rc, true)
+			if rerr != nil {
+				inconclusive = append(inconclusive, "native race replay failed: "+firstLineOf(rerr.Error()))
+				fmt.Fprintln(os.Stderr, rerr)
+			} else {
+				for k, i := range raceIdx {
+					outs[i] = routs[k]
+				}
+			}
+		}
 		for i, r := range all {
 			r.Native = outs[i]
 			r.Confirmed = outcomeMatches(sigBase(r.Sig), outs[i])
